@@ -106,6 +106,9 @@ def pacman_params(tier):
             for uc in (False, True):
                 yield dict(kind="pacman", names=names, state=st, update_cache=uc, upgrade=False, force=True)
     yield dict(kind="pacman", names=["a"], state="present", update_cache=True, upgrade=True, force=True)
+    # `extra_args` (options handed through to pacman) never changes which requests are made or what is reported
+    for names, st in (([], "sync"), (["a"], "present"), (["a", "d"], "absent"), (["c", "b", "a"], "sync")):
+        yield dict(kind="pacman", names=names, state=st, update_cache=False, upgrade=(st == "present"), extra_args="--asdeps")
 
 
 def pacman_sx(db, tasks_checks):
